@@ -265,7 +265,47 @@ def check_code_text_split(prog, rep):
             if cbody is not None and conv is not None and cbody["id"] == conv["id"] and call.ctx.depth == 0:
                 seen.append((s.copy(), call.args[0]))
         I.call_hooks.append(hook2)
+        # every parse result is remembered per path: a path on which both numbers were parsed and are in range
+        # (class <= 7, detail <= 31) has to store the composed code - no such string may be ignored
+        import summaries2
+        base_parse = summaries2.m_parse
+
+        def m_parse_log(I_, s_, call):
+            r = base_parse(I_, s_, call)
+            for s2, v in r or ():
+                if isinstance(v, EnumV) and list(v.variants) == [0] and isinstance(v.variants[0], StructV) and v.variants[0].fields \
+                        and isinstance(v.variants[0].fields[0], IntV):
+                    k = len([g for g in s2.cells if isinstance(g, tuple) and g[:2] == ("gh", "parsed")])
+                    s2.cells[("gh", "parsed", k)] = v.variants[0].fields[0]
+            return r
+        I.extra_models["core::str::<impl str>::parse"] = m_parse_log
+
+        def hook3(I_, s, call, cbody):
+            if cbody is not None and conv is not None and cbody["id"] == conv["id"] and call.ctx.depth == 0:
+                s.ghost[("inj", "code-composed")] = True
+        I.call_hooks.append(hook3)
         I, res = run(prog, sc, I=I)
+        ignored, n_inrange = 0, 0
+        for s_, rv in res:
+            ps = [s_.cells[g] for g in sorted((g for g in s_.cells if isinstance(g, tuple) and g[:2] == ("gh", "parsed")), key=lambda g: g[2])]
+            if len(ps) != 2:
+                continue
+            # the composed store tells which is which; without one, try both assignments
+            feas = False
+            for c_, d_ in ((ps[0], ps[1]), (ps[1], ps[0])):
+                t_ = s_.copy()
+                t_.add_fact(Aff.const(7) - c_.aff)
+                t_.add_fact(Aff.const(31) - d_.aff)
+                if not t_.dead and not infeasible(t_):
+                    feas = True
+            if feas:
+                n_inrange += 1
+                if not s_.ghost.get(("inj", "code-composed")):
+                    ignored += 1
+        rep.ob("C05.7", "set_code-accepts-every-code", n_inrange >= 1 and ignored == 0,
+               "Header::set_code returns without storing a code on %d path(s) that a string 'c.dd' with c <= 7 and dd <= 31 can take: "
+               "such a code is silently ignored (paths with both numbers in range: %d)" % (ignored, n_inrange),
+               {"file": sc["span"]["f"], "line": sc["span"]["l"], "fn": sc["path"]}, sample={"rule": "C05.7", "in_range_paths": n_inrange})
         ok = bool(seen)
         for s, v in seen:
             bits = bitprov.resolve_bits(I, s, v, 8) if isinstance(v, IntV) else None
